@@ -185,30 +185,34 @@ func (h *pheap) alloc(v []pval) pval {
 }
 
 type pinterp struct {
-	c         *Ctx
-	budget    int
-	aborted   bool
-	field     func(h *pheap, named *types.Named, idx int) (pval, bool) // value of a receiver field
-	rankOf    func(input int64) (int64, bool)
-	extentOf  func(input, axis int64) (int64, bool)
-	present   func(input int64) bool            // optional input supplied? (nil func: unknown)
-	inputList func(input int64) ([]int64, bool) // integer content of a tensor-valued list input
-	callSeed  func(call *ssa.Call) (pval, bool) // value of a designated call (attribute getter)
-	onReject  func(fn *ssa.Function, iff *ssa.If, truth bool)
-	onPanic   func(fn *ssa.Function, in ssa.Instruction, what string)
-	onExt     func(fn *ssa.Function, call *ssa.Call, key string, operands []pval, h *pheap)
-	onLib     func(fn *ssa.Function, call *ssa.Call, callee *ssa.Function, args []pval, h *pheap)
-	onDyn     func(fn *ssa.Function, call *ssa.Call, args []pval, h *pheap) ([]pval, bool)     // call through a function value
-	onReduce  func(fn *ssa.Function, call *ssa.Call, name string, shape []int64, axes []int64) // a gorgonia reduction on a tensor of known shape
-	onRepeat  func(fn *ssa.Function, call *ssa.Call, shape []int64, axis, n int64)             // tensor.Repeat on a tensor of known shape
-	onInvoke  func(fn *ssa.Function, call *ssa.Call, recv pval, method string, args []pval, h *pheap) ([]pval, bool)
-	onStore   func(fn *ssa.Function, in ssa.Instruction, obj int64, field int) // a field of a heap object is written
-	visited   map[*ssa.Function]bool
-	decided   int // branches on a known condition that depends on the seed
-	trace     bool
-	objects   bool // model struct objects, maps and slices of arbitrary values (the interpreter tables of the Run plumbing)
-	hdrCache  map[*ssa.Function]bool
-	listReads int
+	c          *Ctx
+	budget     int
+	aborted    bool
+	field      func(h *pheap, named *types.Named, idx int) (pval, bool) // value of a receiver field
+	rankOf     func(input int64) (int64, bool)
+	extentOf   func(input, axis int64) (int64, bool)
+	present    func(input int64) bool            // optional input supplied? (nil func: unknown)
+	inputList  func(input int64) ([]int64, bool) // integer content of a tensor-valued list input
+	callSeed   func(call *ssa.Call) (pval, bool) // value of a designated call (attribute getter)
+	onReject   func(fn *ssa.Function, iff *ssa.If, truth bool)
+	onPanic    func(fn *ssa.Function, in ssa.Instruction, what string)
+	onExt      func(fn *ssa.Function, call *ssa.Call, key string, operands []pval, h *pheap)
+	onLib      func(fn *ssa.Function, call *ssa.Call, callee *ssa.Function, args []pval, h *pheap)
+	onDyn      func(fn *ssa.Function, call *ssa.Call, args []pval, h *pheap) ([]pval, bool)     // call through a function value
+	onReduce   func(fn *ssa.Function, call *ssa.Call, name string, shape []int64, axes []int64) // a gorgonia reduction on a tensor of known shape
+	onRepeat   func(fn *ssa.Function, call *ssa.Call, shape []int64, axis, n int64)             // tensor.Repeat on a tensor of known shape
+	onInvoke   func(fn *ssa.Function, call *ssa.Call, recv pval, method string, args []pval, h *pheap) ([]pval, bool)
+	onStore    func(fn *ssa.Function, in ssa.Instruction, obj int64, field int) // a field of a heap object is written
+	visited    map[*ssa.Function]bool
+	decided    int // branches on a known condition that depends on the seed
+	trace      bool
+	globals    map[*ssa.Global]pval // package-level variables, filled by initGlobals
+	inInit     bool
+	initFailed []string
+	initPkgs   map[string]bool // packages whose initialisers are walked (others are skipped)
+	objects    bool            // model struct objects, maps and slices of arbitrary values (the interpreter tables of the Run plumbing)
+	hdrCache   map[*ssa.Function]bool
+	listReads  int
 }
 
 type pframe struct {
@@ -369,7 +373,7 @@ outer:
 			return
 		}
 		fr.visits[blk]++
-		if fr.visits[blk] > 12 {
+		if fr.visits[blk] > 64 {
 			*incomplete = true
 			return
 		}
@@ -515,6 +519,12 @@ outer:
 						}
 						continue
 					}
+					if g, isG := x.X.(*ssa.Global); isG && p.objects {
+						if v, ok := p.globalValue(g); ok {
+							fr.env[x] = v
+						}
+						continue
+					}
 					switch ad := x.X.(type) {
 					case *ssa.FieldAddr:
 						if p.val(fr, ad.X).k == pRecv {
@@ -605,7 +615,7 @@ outer:
 						return
 					}
 					if pt, ok := x.Type().Underlying().(*types.Pointer); ok && p.objects {
-						if _, isStruct := pt.Elem().Underlying().(*types.Struct); isStruct {
+						if _, isStruct := pt.Elem().Underlying().(*types.Struct); isStruct && libStruct(pt.Elem()) {
 							// the element is a struct value: it lives in an object of its own
 							if l[idx.i].k != pStructVal {
 								o := fr.heap.newObj(pt.Elem())
@@ -646,6 +656,13 @@ outer:
 			case *ssa.Index:
 				delete(fr.env, x)
 			case *ssa.Store:
+				if g, isG := x.Addr.(*ssa.Global); isG && p.objects && p.inInit {
+					if p.globals == nil {
+						p.globals = map[*ssa.Global]pval{}
+					}
+					p.globals[g] = p.val(fr, x.Val)
+					continue
+				}
 				switch ad := p.val(fr, x.Addr); ad.k {
 				case pFieldAddr:
 					if o := fr.heap.objs[ad.i]; o != nil {
@@ -680,7 +697,7 @@ outer:
 			case *ssa.MapUpdate:
 				if m := p.val(fr, x.Map); m.k == pMap {
 					if mm := fr.heap.maps[m.i]; mm != nil {
-						if k := p.val(fr, x.Key); k.k == pStr || k.k == pInt {
+						if k := p.val(fr, x.Key); k.k == pStr || k.k == pInt || k.k == pAbs {
 							mm.set(k, p.val(fr, x.Value))
 						} else {
 							delete(fr.heap.maps, m.i) // an unknown key: the content is no longer known
@@ -693,7 +710,7 @@ outer:
 				if m := p.val(fr, x.X); m.k == pMap {
 					mm := fr.heap.maps[m.i]
 					k := p.val(fr, x.Index)
-					if mm == nil || (k.k != pStr && k.k != pInt) {
+					if mm == nil || (k.k != pStr && k.k != pInt && k.k != pAbs) {
 						break
 					}
 					v, found := mm.get(k)
@@ -1100,6 +1117,39 @@ func (p *pinterp) call(fn *ssa.Function, fr *pframe, x *ssa.Call, depth int) {
 			p.onExt(fn, x, key, vals, fr.heap)
 		}
 	}
+	if cc.IsInvoke() && p.objects {
+		if rv := p.val(fr, cc.Value); rv.k == pObj {
+			if o := fr.heap.objs[rv.i]; o != nil && o.typ != nil {
+				if m := p.c.prog.LookupMethod(types.NewPointer(o.typ), cc.Method.Pkg(), cc.Method.Name()); m != nil && len(m.Blocks) > 0 && depth < p.maxDepth() {
+					args := []pval{rv}
+					for _, a := range cc.Args {
+						args = append(args, p.val(fr, a))
+					}
+					res, h := p.run(m, args, depth+1, fr.heap.clone())
+					if h != nil {
+						fr.heap = h
+					} else {
+						*fr.forked = true
+						p.havoc(fr, args, m)
+						for i := range res {
+							switch res[i].k {
+							case pList, pElemAddr, pShaped, pRevList, pObj, pMap:
+								res[i] = pval{k: pPoison}
+							}
+						}
+					}
+					if len(res) == 1 {
+						if res[0].k != pUnknown {
+							fr.env[x] = res[0]
+						}
+					} else if len(res) > 1 {
+						fr.tuples[x] = res
+					}
+					return
+				}
+			}
+		}
+	}
 	if cc.IsInvoke() && p.onInvoke != nil {
 		if rv := p.val(fr, cc.Value); rv.k == pAbs || rv.k == pObj {
 			args := make([]pval, len(cc.Args))
@@ -1461,6 +1511,9 @@ func (p *pinterp) call(fn *ssa.Function, fr *pframe, x *ssa.Call, depth int) {
 		}
 		return
 	}
+	if p.inInit && sc.Name() == "init" && sc.Signature.Recv() == nil && !p.initPkgs[fnPkgPath(sc)] {
+		return // the initialiser of another package: not part of what is being set up
+	}
 	if !(isLibFn(sc) || isControlFn(sc)) || len(sc.Blocks) == 0 || depth >= p.maxDepth() {
 		args := make([]pval, len(cc.Args))
 		for i, a := range cc.Args {
@@ -1687,4 +1740,79 @@ func (p *pinterp) maxDepth() int {
 		return 14
 	}
 	return 5
+}
+
+// globalValue: the value of a package-level variable. Variables of the library are taken from a walk of the
+// package's initialiser (once); gorgonia's dtype variables are opaque tokens named after the variable.
+func (p *pinterp) globalValue(g *ssa.Global) (pval, bool) {
+	if v, ok := p.globals[g]; ok {
+		return v, v.k != pUnknown
+	}
+	if g.Name() == "init$guard" {
+		return pval{k: pBool, b: false}, true
+	}
+	if g.Pkg == nil {
+		return pval{}, false
+	}
+	path := g.Pkg.Pkg.Path()
+	if path == pkgTensor {
+		if n, ok := g.Type().(*types.Pointer); ok {
+			if nn, ok := n.Elem().(*types.Named); ok && nn.Obj().Name() == "Dtype" {
+				h := int64(0)
+				for _, ch := range g.Name() {
+					h = h*131 + int64(ch)
+				}
+				return pval{k: pAbs, i: h, s: "dtype:" + g.Name()}, true
+			}
+		}
+		return pval{}, false
+	}
+	return pval{}, false
+}
+
+// initGlobals walks the initialisers of the given library packages on heap and keeps what they store into
+// package-level variables.
+func (p *pinterp) initGlobals(heap *pheap, paths ...string) *pheap {
+	if p.globals == nil {
+		p.globals = map[*ssa.Global]pval{}
+	}
+	p.initPkgs = map[string]bool{}
+	for _, path := range paths {
+		p.initPkgs[path] = true
+	}
+	for _, path := range paths {
+		var pkg *ssa.Package
+		for _, sp := range p.c.prog.AllPackages() {
+			if sp.Pkg.Path() == path {
+				pkg = sp
+			}
+		}
+		if pkg == nil {
+			continue
+		}
+		init := pkg.Func("init")
+		if init == nil || len(init.Blocks) == 0 {
+			continue
+		}
+		save, saveBudget := p.inInit, p.budget
+		p.inInit, p.budget = true, 3000000
+		_, h := p.run(init, nil, 0, heap)
+		if h != nil {
+			heap = h
+		} else {
+			p.initFailed = append(p.initFailed, path)
+		}
+		p.inInit, p.budget = save, saveBudget
+	}
+	return heap
+}
+
+// libStruct: a struct type declared in the library (structs of other packages, gorgonia's Dtype for one, are
+// opaque tokens).
+func libStruct(t types.Type) bool {
+	n, ok := t.(*types.Named)
+	if !ok || n.Obj().Pkg() == nil {
+		return true
+	}
+	return isLibPkgPath(n.Obj().Pkg().Path())
 }
